@@ -3,6 +3,7 @@
 package main
 
 import (
+	"strings"
 	"fmt"
 	"math/rand/v2"
 
@@ -28,6 +29,9 @@ type usageSpec struct {
 	By       *resSpec `json:"by,omitempty"`
 	Owner    string   `json:"owner,omitempty"` // XR controlling the Usage (needed by matchControllerRef)
 	Composed bool     `json:"composed,omitempty"`
+	// Replay sets spec.replayDeletion: the controller replays a refused deletion of the used
+	// resource once this Usage is gone (the timed replay itself is intercepted by the harness)
+	Replay bool `json:"replayDeletion,omitempty"`
 }
 
 type thingSpec struct {
@@ -37,12 +41,22 @@ type thingSpec struct {
 	Owner   string `json:"owner,omitempty"`
 }
 
+// ownerKey resolves an owner given as "name" (an XThing) or as "group/Kind/name" (an XR of
+// another type, e.g. one that shares kind and name with a resource it composes).
+func ownerKey(owner string) sim.Key {
+	if p := strings.Split(owner, "/"); len(p) == 3 {
+		return sim.Key{Group: p[0], Kind: p[1], Name: p[2]}
+	}
+	return sim.Key{Group: xrGK.Group, Kind: xrGK.Kind, Name: owner}
+}
+
 func (e *env) ctrlRef(xr string) []any {
-	o := e.w.GetObj(sim.Key{Group: xrGK.Group, Kind: xrGK.Kind, Name: xr})
+	k := ownerKey(xr)
+	o := e.w.GetObj(k)
 	if o == nil {
 		panic("no XR " + xr)
 	}
-	return []any{map[string]any{"apiVersion": "ex.org/v1", "kind": "XThing", "name": xr, "uid": sim.Str(o, "metadata", "uid"), "controller": true, "blockOwnerDeletion": true}}
+	return []any{map[string]any{"apiVersion": k.Group + "/v1", "kind": k.Kind, "name": k.Name, "uid": sim.Str(o, "metadata", "uid"), "controller": true, "blockOwnerDeletion": true}}
 }
 
 func resMap(grp string, r resSpec) map[string]any {
@@ -71,12 +85,15 @@ func (e *env) usageObj(us usageSpec) map[string]any {
 	} else {
 		spec["reason"] = "do not delete"
 	}
+	if us.Replay {
+		spec["replayDeletion"] = true
+	}
 	md := map[string]any{"name": us.Name}
 	if us.Owner != "" {
 		md["ownerReferences"] = e.ctrlRef(us.Owner)
 	}
 	if us.Composed {
-		md["labels"] = map[string]any{"crossplane.io/composite": us.Owner}
+		md["labels"] = map[string]any{"crossplane.io/composite": ownerKey(us.Owner).Name}
 	}
 	return map[string]any{"apiVersion": usageGroup + "/" + us.Version, "kind": "Usage", "metadata": md, "spec": spec}
 }
@@ -98,6 +115,8 @@ func (e *env) seedXRs() {
 	for _, n := range []string{"xr1", "xr2"} {
 		e.w.MustSeed("setup", map[string]any{"apiVersion": "ex.org/v1", "kind": "XThing", "metadata": map[string]any{"name": n}})
 	}
+	// an XR whose kind and name equal those of a resource it composes (another API group)
+	e.w.MustSeed("setup", map[string]any{"apiVersion": "platform.ex.org/v1", "kind": "Thing", "metadata": map[string]any{"name": "t3"}})
 }
 
 // op is one user request.
@@ -284,6 +303,30 @@ func scenarios() []scenario {
 		sOp(dt("t1", "v1", "")),
 		sOp(du("u1", "v1beta1", "")), sRec("u1"), // waits for the using resource
 		sOp(dt("t3", "v1", "")), sGC(), sRec("u1"), sRec("u1"),
+		sOp(dt("t1", "v1", "")),
+	}})
+	// E2: the same, composed by an XR that shares kind AND name with the using resource (it lives
+	// in another API group): the using resource's owner reference must survive the re-compose
+	uc2 := usageSpec{Name: "u1", Version: "v1beta1", Of: ref("t1", "v1"), By: &byc, Owner: "platform.ex.org/Thing/t3", Composed: true}
+	out = append(out, scenario{Name: "composed-by-xr-named-like-the-user", Things: baseThings, Steps: []step{
+		sOp(op{Kind: "compose", Usage: &uc2}), sRec("u1"), sRec("u1"),
+		sOp(op{Kind: "compose", Usage: &uc2}), sRec("u1"),
+		sOp(dt("t1", "v1", "")),
+		sOp(op{Kind: "compose", Usage: &uc2}), sRec("u1"),
+		sOp(dt("t3", "v1", "")), sGC(), sRec("u1"), sRec("u1"),
+		sOp(dt("t1", "v1", "")),
+	}})
+	// E3: two Usages of one resource, one of them with replayDeletion; a deletion of the resource is
+	// refused (and recorded for the replay), then the replaying Usage is deleted while the other
+	// one stays Ready: the in-use label stays, further deletions are refused
+	ur := usageSpec{Name: "u1", Version: "v1beta1", Of: ref("t1", "v1"), Replay: true}
+	uk := usageSpec{Name: "u2", Version: "v1beta1", Of: ref("t1", "v1")}
+	out = append(out, scenario{Name: "replay-deletion-with-second-usage", Things: baseThings, Steps: []step{
+		sOp(cu(ur)), sOp(cu(uk)), sRec("u1"), sRec("u2"), sRec("u1"), sRec("u2"),
+		sOp(dt("t1", "v1", "Background")),
+		sOp(du("u1", "v1beta1", "")), sRec("u1"), sRec("u1"),
+		sOp(dt("t1", "v1", "")), sRec("u2"),
+		sOp(du("u2", "v1beta1", "")), sRec("u2"), sRec("u2"),
 		sOp(dt("t1", "v1", "")),
 	}})
 	// F: a second Usage whose using resource is given by a selector that matches nothing: it names
